@@ -5,6 +5,9 @@ from harness import tlcrun
 from harness.drivers import dddmp_gen
 
 
+LEVEL = 'exploration'
+
+
 def run(chk):
     q = chk.quick
     chk.rule = (
